@@ -69,22 +69,13 @@ func combine(fields []st.Field) []st.Field {
 	new := st.Field{}
 	cur := ""
 	var out []st.Field
-	wasPad := true
 	for _, field := range fields {
 		var prefix string
 		if field.IsPadding {
-			wasPad = true
 			continue
 		}
 		p := strings.Split(field.Name, ".")
 		prefix = strings.Join(p[:2], ".")
-		if field.Align > new.Align {
-			new.Align = field.Align
-		}
-		if !wasPad {
-			new.End = field.Start
-			new.Size = new.End - new.Start
-		}
 		if prefix != cur {
 			if cur != "" {
 				out = append(out, new)
@@ -94,10 +85,17 @@ func combine(fields []st.Field) []st.Field {
 			new.Name = prefix
 		} else {
 			new.Type = "struct"
+			if field.Align > new.Align {
+				new.Align = field.Align
+			}
+			new.End = field.End
+			new.Size = new.End - new.Start
+			if new.Align > 0 {
+				// A struct's size is a multiple of its alignment.
+				new.Size = align(new.Size, new.Align)
+			}
 		}
-		wasPad = false
 	}
-	new.Size = new.End - new.Start
 	out = append(out, new)
 	return out
 }
